@@ -2125,7 +2125,7 @@ func TestVerifC18Sched(t *testing.T) {
 			r.Count("racy_scripted_cases", 1)
 		}
 	}
-	n := r.N(160, 4000)
+	n := r.N(160, 2500)
 	for ci := 0; ci < n; ci++ {
 		rng := r.Rand(ci)
 		fl := "partition"
@@ -2222,7 +2222,7 @@ var c18EnumProgs = []struct {
 	{"thorough", c18EnumProg{name: "A:acq,rel|B:acq|1 expiry,1 notice", ops: [3][]c18EnumOp{{{"acquire", 0}, {"release", 0}}, {{"acquire", 0}}, nil}, expire: 1, notice: 1}},
 	{"thorough", c18EnumProg{name: "A:acq,restart,acq|B:acq|1 expiry", ops: [3][]c18EnumOp{{{"acquire", 0}, {"restart", 0}, {"acquire", 0}}, {{"acquire", 0}}, nil}, expire: 1}},
 	{"thorough", c18EnumProg{name: "A:acq,(rel||acq)|B:acq", ops: [3][]c18EnumOp{{{"acquire", 0}, {"release", 0}, {"acquire", 0}}, {{"acquire", 0}}, nil}, overlap: [3]bool{true, false, false}}},
-	{"thorough", c18EnumProg{name: "A:acq,relall|B:acq,rel|C:acq|delayed responses", ops: [3][]c18EnumOp{{{"acquire", 0}, {"release_all", 0}}, {{"acquire", 0}, {"release", 0}}, {{"acquire", 0}}}, delayed: true}},
+	{"thorough", c18EnumProg{name: "A:acq,relall|B:acq|delayed responses", ops: [3][]c18EnumOp{{{"acquire", 0}, {"release_all", 0}}, {{"acquire", 0}}, nil}, delayed: true}},
 }
 
 const c18EnumRule = "for each listed small program (per-broker call sequences over one resource, budgets of server-side expiries / notices), EVERY schedule — which broker starts its next call, which parked etcd request is executed next, where the expiry/notice is placed — is executed against fresh real managers by stateless depth-first search (a schedule = list of choice indices, re-executed from the start); oracles (a) (b) (c) of the sched leg run after every step; exhaustive=true when every program's tree was exhausted within the tier's cap"
@@ -2234,7 +2234,7 @@ func TestVerifC18Enum(t *testing.T) {
 		"choices are enumerated in a fixed order; a schedule prefix replays identically because no step of this leg depends on goroutine scheduling")
 	e := newC18Env(t, r)
 	defer e.close()
-	limit := r.N(1500, 60000)
+	limit := r.N(1500, 6000)
 	allExhausted := true
 	for _, ep := range c18EnumProgs {
 		if ep.tier == "thorough" && !r.Thorough() {
